@@ -113,14 +113,21 @@ def check_layout(comp, n, label):
 if __name__ == "__main__":
     rng = np.random.RandomState(seed)
     np.random.seed(seed)
+    hbar0 = sf.hbar
     try:
-        for n in ((4,) if tier == "quick" else (4, 6, 8)):
+      # the convention hbar is a global of the front end: the compilers must give the same experiment under every value of it
+      for hb in ((hbar0, 1.0) if tier == "quick" else (hbar0, 1.0, 0.5, 4.0)):
+        sf.hbar = hb
+        for n in ((4,) if tier == "quick" or hb != hbar0 else (4, 6, 8)):
             N = n // 2
-            for (sl, sq), (ul, U) in itertools.product(squeezings(N, rng), unitaries(N, rng)):
+            cases = list(itertools.product(squeezings(N, rng), unitaries(N, rng)))
+            if hb != hbar0:
+                cases = cases[::3]
+            for (sl, sq), (ul, U) in cases:
                 for interleave in (False, True):
                     for compiler in ("Xunitary", "Xcov"):
                         EVAL[0] += 1
-                        label = f"{compiler} n={n} squeezers={sl} unitary={ul} interleaved={interleave}"
+                        label = f"{compiler} n={n} squeezers={sl} unitary={ul} interleaved={interleave}" + (f" at sf.hbar={hb}" if hb != hbar0 else "")
                         prog = source(n, sq, U, interleave)
                         try:
                             comp = prog.compile(compiler=compiler)
@@ -161,5 +168,7 @@ if __name__ == "__main__":
         traceback.print_exc()
         print("bounded stand-in crashed")
         sys.exit(3)
+    finally:
+        sf.hbar = hbar0
     emit_bounded("c12_hw", EVAL[0], EVAL[0], [{"squeezers": ["all-equal", "one-zero", "one-missing", "none", "repeated-on-one/two/all pairs"], "unitaries": ["identity", "swap", "haar"]}], len(V))
     sys.exit(1 if V else 0)
